@@ -189,7 +189,10 @@ impl SimScenario {
         let logger = self.sys.logger();
         let trace = logger.trace();
         let mut new: Vec<String> = trace[self.trace_seen..].iter().map(show_slog).collect();
-        if sort_tail && new.len() > 1 {
+        // the order in which `crash_node` logs the dropped messages follows simcore's heap layout, which the model does
+        // not mirror: sorted for the comparison with the model; the determinism check (C01) sets VH_RAW_ORDER and
+        // compares the raw order between executions
+        if sort_tail && new.len() > 1 && std::env::var("VH_RAW_ORDER").is_err() {
             new[1..].sort();
         }
         self.trace_seen = trace.len();
